@@ -190,9 +190,9 @@ def run(ctx):
     stream_ser(ctx, ctx.scale(400, 6000))
     stream_offset(ctx, ctx.scale(3000, 60000))
     rng = ctx.rng
-    stream_recorder(ctx, [wc.gen_scenario(rng) for _ in range(ctx.scale(120, 2500))])
+    stream_recorder(ctx, [wc.gen_scenario(rng) for _ in range(ctx.scale(400, 5000))])
     from engines import warc_client
-    warc_client.stream_client(ctx, ctx.scale(60, 1500), PID)
+    warc_client.stream_client(ctx, ctx.scale(200, 3000), PID)
 
 
 def search(ctx):
